@@ -54,6 +54,9 @@ class Module:
             for child in ast.iter_child_nodes(node):
                 child._parent = node  # type: ignore[attr-defined]
         self.tree._parent = None  # type: ignore[attr-defined]
+        for node in ast.walk(self.tree):
+            if isinstance(node, ast.ClassDef):
+                node._module = self  # type: ignore[attr-defined]
         self._top: Dict[str, ast.AST] = {}
         for node in self.tree.body:
             if isinstance(node, (ast.FunctionDef, ast.ClassDef, ast.AsyncFunctionDef)):
@@ -90,8 +93,10 @@ class Module:
             raise AnchorMissing(f"{self.name}.{name}: not a class")
         return node
 
-    def func(self, qualname: str) -> FuncNode:
-        """``f`` or ``Class.method`` or ``outer.inner`` (nested def)."""
+    def func(self, qualname: str, raw: bool = False) -> FuncNode:
+        """``f`` or ``Class.method`` or ``outer.inner`` (nested def).  By default the function is returned in
+        normal form: private helpers it calls are expanded in place (sa.core.inline); ``raw=True`` gives the
+        tree as written."""
         parts = qualname.split(".")
         node: ast.AST = self.top(parts[0])
         for p in parts[1:]:
@@ -108,7 +113,22 @@ class Module:
             node = found
         if not isinstance(node, (ast.FunctionDef, ast.AsyncFunctionDef)):
             raise AnchorMissing(f"{self.name}.{qualname}: not a function")
-        return node
+        if raw or not NORMALIZE:
+            return node
+        from .inline import normalize
+
+        top = parts[0]
+        owner = self._top.get(top)
+        return normalize(self, owner if isinstance(owner, ast.ClassDef) and len(parts) == 2 else None, node)
+
+    def func_n(self, qualname: str) -> FuncNode:
+        """The function in normal form: private helpers it calls expanded in place (sa.core.inline)."""
+        from .inline import normalize
+
+        node = self.func(qualname, raw=True)
+        parts = qualname.split(".")
+        owner = self._top.get(parts[0])
+        return normalize(self, owner if isinstance(owner, ast.ClassDef) and len(parts) == 2 else None, node)
 
     def has_func(self, qualname: str) -> bool:
         try:
@@ -167,8 +187,32 @@ def class_member(cls: ast.ClassDef, name: str) -> Optional[ast.AST]:
     return found
 
 
-def class_methods(cls: ast.ClassDef) -> Dict[str, FuncNode]:
-    """name -> FunctionDef, following simple ``__x__ = __y__`` aliases."""
+NORMALIZE = False  # opt-in per rule: Module.func_n / class_methods_n
+
+
+def class_methods(cls: ast.ClassDef, raw: bool = False) -> Dict[str, FuncNode]:
+    """name -> FunctionDef, following simple ``__x__ = __y__`` aliases (normal form unless ``raw``)."""
+    out = _class_methods_raw(cls)
+    mod = getattr(cls, "_module", None)
+    if raw or not NORMALIZE or mod is None:
+        return out
+    from .inline import normalize
+
+    return {name: normalize(mod, cls, fn) for name, fn in out.items()}
+
+
+def class_methods_n(cls: ast.ClassDef) -> Dict[str, FuncNode]:
+    """Methods in normal form (private helpers expanded in place)."""
+    from .inline import normalize
+
+    mod = getattr(cls, "_module", None)
+    out = _class_methods_raw(cls)
+    if mod is None:
+        return out
+    return {name: normalize(mod, cls, fn) for name, fn in out.items()}
+
+
+def _class_methods_raw(cls: ast.ClassDef) -> Dict[str, FuncNode]:
     out: Dict[str, FuncNode] = {}
     for node in cls.body:
         if isinstance(node, (ast.FunctionDef, ast.AsyncFunctionDef)):
@@ -337,6 +381,23 @@ class Repo:
             self._mods[name] = Module(name, self.root / MODULES[name])
         return self._mods[name]
 
+    def norm(self, module: str, qualname: str, no_inline: Optional[set] = None) -> FuncNode:
+        """The function with its private helpers expanded in place (see sa.core.inline)."""
+        from .inline import normalize
+
+        mod = self.mod(module)
+        fn = mod.func(qualname)
+        top = qualname.split(".")[0]
+        cls = mod.cls(top) if mod.has_class(top) else None
+        return normalize(mod, cls, fn, no_inline)
+
+    def norm_methods(self, module: str, clsname: str, no_inline: Optional[set] = None) -> Dict[str, FuncNode]:
+        from .inline import normalize
+
+        mod = self.mod(module)
+        cls = mod.cls(clsname)
+        return {name: normalize(mod, cls, fn, no_inline) for name, fn in class_methods(cls).items()}
+
     @property
     def grammar_path(self) -> Path:
         p = self.root / GRAMMAR
@@ -403,7 +464,7 @@ class Repo:
         for owner in self.mro(clsname):
             found = self.find_class(owner)
             if found:
-                meths = class_methods(found[1])
+                meths = class_methods(found[1], raw=True)
                 if method in meths:
                     return owner, meths[method]
             else:
